@@ -105,15 +105,16 @@ theorem taskAt_spawnTask (s : St) (t i : Nat) (p : List Instr) (h : TaskAt s i p
       rw [tasks_enqueue]
       exact taskAt_setTask s t i p tk _ ht rfl rfl h
 
-theorem measure_grant (s : St) (wk : Kind) (wi : Nat) : measure (grant s wk wi) = measure s + 1 := by
+theorem measure_grant (s : St) (wk : Kind) (wi : Nat) : measure (grant s wk wi) ≤ measure s + 1 := by
   unfold grant
   split
-  · exact measure_enqueue _ _ _
+  · rw [measure_enqueue]; exact Nat.le_refl _
   · rename_i tk h
-    rw [measure_enqueue]
     have := measure_setTask s wi tk { tk with granted := true } h
     have e : tw { tk with granted := true } = tw tk := rfl
-    omega
+    split
+    · omega
+    · rw [measure_enqueue]; omega
 
 theorem taskAt_grant (s : St) (wk : Kind) (wi i : Nat) (p : List Instr) (h : TaskAt s i p) :
     TaskAt (grant s wk wi) i p := by
@@ -121,9 +122,11 @@ theorem taskAt_grant (s : St) (wk : Kind) (wi i : Nat) (p : List Instr) (h : Tas
   split
   · unfold TaskAt; rw [tasks_enqueue]; exact h
   · rename_i tk ht
-    unfold TaskAt
-    rw [tasks_enqueue]
-    exact taskAt_setTask s wi i p tk _ ht rfl rfl h
+    split
+    · exact taskAt_setTask s wi i p tk _ ht rfl rfl h
+    · unfold TaskAt
+      rw [tasks_enqueue]
+      exact taskAt_setTask s wi i p tk _ ht rfl rfl h
 
 theorem measure_wakeCond (s : St) (k : Nat) : measure (wakeCond s k) ≤ measure s + 1 := by
   unfold wakeCond
@@ -136,7 +139,7 @@ theorem measure_wakeCond (s : St) (k : Nat) : measure (wakeCond s k) ≤ measure
       have e : cw { c with permits := if c.cap1 then 1 else c.permits + 1 } = cw c := rfl
       omega
     · rename_i wk wi r hw
-      rw [measure_grant]
+      have hg := measure_grant { s with conds := s.conds.set k { c with waiters := r } } wk wi
       have := measure_setCond s k c { c with waiters := r } hc
       have e1 : cw c = r.length + 1 := by unfold cw; rw [hw]; simp
       have e2 : cw { c with waiters := r } = r.length := rfl
@@ -151,15 +154,16 @@ theorem taskAt_wakeCond (s : St) (k i : Nat) (p : List Instr) (h : TaskAt s i p)
     · exact h
     · exact taskAt_grant _ _ _ _ _ h
 
-theorem measure_grantAll : ∀ (l : List (Kind × Nat)) (s : St), measure (grantAll l s) = measure s + l.length := by
+theorem measure_grantAll : ∀ (l : List (Kind × Nat)) (s : St), measure (grantAll l s) ≤ measure s + l.length := by
   intro l
   induction l with
-  | nil => intro s; rfl
+  | nil => intro s; exact Nat.le_refl _
   | cons a l ih =>
     intro s
     obtain ⟨wk, wi⟩ := a
     simp only [grantAll, List.length_cons]
-    rw [ih, measure_grant]
+    have h1 := ih (grant s wk wi)
+    have h2 := measure_grant s wk wi
     omega
 
 theorem taskAt_grantAll (i : Nat) (p : List Instr) :
@@ -178,7 +182,7 @@ theorem measure_wakeAll (s : St) (k : Nat) : measure (wakeAll s k) ≤ measure s
   split
   · omega
   · rename_i c hc
-    rw [measure_grantAll]
+    have hg := measure_grantAll c.waiters { s with conds := s.conds.set k { c with waiters := [] } }
     have := measure_setCond s k c { c with waiters := [] } hc
     have e1 : cw c = c.waiters.length := rfl
     have e2 : cw { c with waiters := [] } = 0 := rfl
@@ -190,6 +194,23 @@ theorem taskAt_wakeAll (s : St) (k i : Nat) (p : List Instr) (h : TaskAt s i p) 
   split
   · exact h
   · exact taskAt_grantAll i p _ _ h
+
+theorem measure_removeTimer (s : St) (tm : Timer) : measure (removeTimer s tm) = measure s := rfl
+
+theorem measure_removeWaiter (s : St) (q : Nat) (w : Kind × Nat) : measure (removeWaiter s q w) ≤ measure s := by
+  unfold removeWaiter
+  split
+  · exact Nat.le_refl _
+  · rename_i cd hc
+    have := measure_setCond s q cd { cd with waiters := cd.waiters.erase w } hc
+    have e : cw { cd with waiters := cd.waiters.erase w } ≤ cw cd := by
+      unfold cw; exact List.length_erase_le
+    omega
+
+theorem taskAt_removeWaiter (s : St) (q : Nat) (w : Kind × Nat) (i : Nat) (p : List Instr) (h : TaskAt s i p) :
+    TaskAt (removeWaiter s q w) i p := by
+  unfold removeWaiter
+  split <;> exact h
 
 theorem measure_setProg (s : St) (i : Nat) (p r : List Instr) (h : TaskAt s i p) :
     measure (setProg s i r) + (p.map iw).sum = measure s + (r.map iw).sum := by
@@ -240,7 +261,7 @@ theorem measure_runProg (k : Kind) (i : Nat) :
     have hs := measure_setProg s i (ins :: r) r h
     have ht := taskAt_setProg s i (ins :: r) r h
     -- consume the instruction, log, continue
-    have hcont : ∀ (c' : Nat) (s1 : St), TaskAt s1 i (ins :: r) → measure s1 = measure s → 2 ≤ iw ins →
+    have hcont : ∀ (c' : Nat) (s1 : St), TaskAt s1 i (ins :: r) → measure s1 ≤ measure s → 2 ≤ iw ins →
         measure (runProg k i r c' s.now s.phase (logAt (setProg s1 i r) i rdy org)) ≤ measure s := by
       intro c' s1 h1 hm hw
       have hs1 := measure_setProg s1 i (ins :: r) r h1
@@ -275,7 +296,7 @@ theorem measure_runProg (k : Kind) (i : Nat) :
       omega
     | resume =>
       simp only [runProg]
-      exact hcont c s h rfl (by simp [iw])
+      exact hcont c s h (Nat.le_refl _) (by simp [iw])
     | wait q =>
       simp only [runProg]
       split
@@ -322,7 +343,7 @@ theorem measure_runProg (k : Kind) (i : Nat) :
         · split
           · exact Nat.le_refl _
           · split
-            · exact hcont _ s h rfl (by simp [iw])
+            · exact hcont _ s h (Nat.le_refl _) (by simp [iw])
             · -- register the JoinHandle's waker
               rename_i hnd
               have ht' : TaskAt { s with tasks := s.tasks.set t { tj with joiner := some (k, i) } } i (.join t :: r) :=
@@ -344,8 +365,45 @@ theorem measure_runProg (k : Kind) (i : Nat) :
       · split
         · exact Nat.le_refl _
         · split
-          · exact hcont _ s h rfl (by simp [iw])
+          · exact hcont _ s h (Nat.le_refl _) (by simp [iw])
           · exact Nat.le_refl _
+    | waitT q d =>
+      simp only [runProg]
+      split
+      · exact Nat.le_refl _
+      · rename_i cd hc
+        split
+        · split
+          · rw [measure_addTimer]
+            have ht' : TaskAt { s with conds := s.conds.set q { cd with waiters := cd.waiters ++ [(k, i)] } } i
+                (.waitT q d :: r) := h
+            have h1 := measure_setProg _ i (.waitT q d :: r) (.waitingT q (s.now + d) :: r) ht'
+            have h2 := measure_setCond s q cd { cd with waiters := cd.waiters ++ [(k, i)] } hc
+            have e : cw { cd with waiters := cd.waiters ++ [(k, i)] } = cw cd + 1 := by unfold cw; simp
+            simp [iw] at h1
+            omega
+          · exact hcont c s h (Nat.le_refl _) (by simp [iw])
+        · have ht' : TaskAt { s with conds := s.conds.set q { cd with permits := cd.permits - 1 } } i
+              (.waitT q d :: r) := h
+          have h2 := measure_setCond s q cd { cd with permits := cd.permits - 1 } hc
+          have e : cw { cd with permits := cd.permits - 1 } = cw cd := rfl
+          exact hcont _ _ ht' (by omega) (by simp [iw])
+    | waitingT q t =>
+      simp only [runProg]
+      split
+      · exact Nat.le_refl _
+      · rename_i tk htk
+        split
+        · have ht' : TaskAt (removeTimer { s with tasks := s.tasks.set i { tk with granted := false } } ⟨t, k, i⟩) i
+              (.waitingT q t :: r) := taskAt_setTask s i i _ tk _ htk rfl rfl h
+          have h2 := measure_setTask s i tk { tk with granted := false } htk
+          have e : tw { tk with granted := false } = tw tk := rfl
+          have e2 : measure (removeTimer { s with tasks := s.tasks.set i { tk with granted := false } } ⟨t, k, i⟩)
+              = measure { s with tasks := s.tasks.set i { tk with granted := false } } := rfl
+          exact hcont _ _ ht' (by omega) (by simp [iw])
+        · split
+          · exact Nat.le_refl _
+          · exact hcont _ _ (taskAt_removeWaiter s q (k, i) i _ h) (measure_removeWaiter s q (k, i)) (by simp [iw])
     | sleep d =>
       simp only [runProg]
       split
@@ -353,7 +411,7 @@ theorem measure_runProg (k : Kind) (i : Nat) :
         have := measure_setProg s i (.sleep d :: r) (.sleeping (s.now + d) :: r) h
         simp [iw] at this
         omega
-      · exact hcont c s h rfl (by simp [iw])
+      · exact hcont c s h (Nat.le_refl _) (by simp [iw])
     | sleepUntil t =>
       simp only [runProg]
       split
@@ -361,12 +419,12 @@ theorem measure_runProg (k : Kind) (i : Nat) :
         have := measure_setProg s i (.sleepUntil t :: r) (.sleeping t :: r) h
         simp [iw] at this
         omega
-      · exact hcont c s h rfl (by simp [iw])
+      · exact hcont c s h (Nat.le_refl _) (by simp [iw])
     | sleeping t =>
       simp only [runProg]
       split
       · exact Nat.le_refl _
-      · exact hcont c s h rfl (by simp [iw])
+      · exact hcont c s h (Nat.le_refl _) (by simp [iw])
 
 theorem measure_markPolled (s : St) (i : Nat) : measure (markPolled s i) = measure s := by
   unfold markPolled
